@@ -114,6 +114,24 @@ else:
 return [m for m in msgs if "required" not in m["error"]] == []
 '''
 
+CREATE2 = '''
+# objects handed out by create() are independent of each other and of the schema: editing one (lists in place included) does not
+# change what the next create() returns
+t = TYPES[sel]
+ver = None if vi == 0 else (7.6 if vi == 1 else 8.0)
+a = U.create(t, ver)
+snap = [(k, list(v) if isinstance(v, list) else v) for k, v in a.items()]
+for k, v in a.items():
+    if isinstance(v, list):
+        for i in range(len(v)):
+            v[i] = 12345
+        v.append(6789)
+    elif k != "__type__":
+        a[k] = "edited"
+b = U.create(t, ver)
+return [(k, list(v) if isinstance(v, list) else v) for k, v in b.items()] == snap
+'''
+
 INFO = {
     "explanation": "C19: the finite vocabulary product is posed to solvers: E-LALR bit-blasted BMC of the real parse table over symbolic slot "
                    "selections (all keyword slots of a type next to each other), validated against the real Parser; table / default / create "
@@ -195,4 +213,11 @@ def obligations(tier, seed):
                       meta={"desc": f"create('{t}', version) for 7 versions prints, re-loads to the same values and validates apart from required keywords"
                                     + (f" (defaults listed as known findings left out: {skip})" if skip else ""),
                             "functions": ["utils.create", "PrettyPrinter", "Parser", "Validator.validate"]}))
+    for t in types:
+        if not any(isinstance(p, dict) and isinstance(p.get("default"), list) for p in S.expanded(t)["properties"].values()):
+            continue
+        src = DEF_PRE % dict(pairs=[], types=[t], defaults=[]) + "SKIP = []\n" + harness("h", [("sel", "int"), ("vi", "int")], "(sel == 0) & (vi >= 0) & (vi < 3)", CREATE2)
+        obs.append(Ob(name=f"C19-DEFAULT/create-twice.{t}", source=src, pct=900, timeout=1000,
+                      meta={"desc": f"create('{t}') twice with every default of the first result edited in place in between: the second result carries the declared defaults",
+                            "functions": ["utils.create", "Validator.get_versioned_schema"]}))
     return obs
